@@ -128,26 +128,60 @@ func C15Lit(bi, form, k int) {
 	vstub.Reach("c15lit")
 }
 
-func opApply(op int, x, y uint64) uint64 {
+var opText = []string{" | ", " & ", " << ", " >> "}
+
+// baseWidth is the number of bits of a base type.
+func baseWidth(b baseInfo) uint {
+	switch b.max {
+	case 0xff:
+		return 8
+	case 0xffff, 0x7fff:
+		return 16
+	case 0xffffffff, 0x7fffffff:
+		return 32
+	}
+	return 64
+}
+
+// narrow reduces v to the base type: modulo 2^width, sign-extended to 64 bits
+// for signed bases (the representation optVal reports).
+func narrow(b baseInfo, v uint64) uint64 {
+	w := baseWidth(b)
+	if w == 64 {
+		return v
+	}
+	v &= uint64(1)<<w - 1
+	if b.signed {
+		return uint64(int64(v<<(64-w)) >> (64 - w))
+	}
+	return v
+}
+
+// opApply is one operator applied in the enum's base type: operands and
+// result are values of that type (Go's semantics for typed integers - a left
+// shift drops the bits that leave the type, a right shift of a signed value
+// is arithmetic). y < width for shifts.
+func opApply(b baseInfo, op int, x, y uint64) uint64 {
 	switch op {
 	case 0:
 		return x | y
 	case 1:
 		return x & y
 	case 2:
-		return x << y
+		return narrow(b, x<<y)
+	}
+	if b.signed {
+		return uint64(int64(x) >> y)
 	}
 	return x >> y
 }
 
-var opText = []string{" | ", " & ", " << ", " >> "}
-
 // flagOperand is one literal operand of a [flags] expression: "0x" and one
-// symbolic hex digit (either case) or, when wide, also "1" and one symbolic
-// decimal digit (10..19). (A symbolic first character of a number would fork
-// the tokenizer's successor table ten ways per operand.)
-func flagOperand(wide bool) ([]byte, uint64) {
-	if wide && vstub.Choose(0, 1) == 1 {
+// symbolic hex digit (either case) or "1" and one symbolic decimal digit
+// (10..19). (A symbolic first character of a number would fork the
+// tokenizer's successor table ten ways per operand.)
+func flagOperand() ([]byte, uint64) {
+	if vstub.Choose(0, 1) == 1 {
 		d, v := dec(1)
 		return app(nil, "1", d), 10 + v
 	}
@@ -155,11 +189,34 @@ func flagOperand(wide bool) ([]byte, uint64) {
 	return app(nil, "0x", h), v
 }
 
-// C15Flags: [flags] members are the value of their expression. Expressions
-// are fully parenthesised (the property does not fix a precedence), operands
-// are literals with a symbolic digit and earlier members; every intermediate
-// and final value is assumed representable in the base type, shift counts
-// are below 8.
+// flagCount is a literal used as a shift count: 0x0-0xf, and for the wider
+// bases also 0x10-0x1f and 0x30-0x3f; always below the width of the base.
+func flagCount(b baseInfo) ([]byte, uint64) {
+	w := baseWidth(b)
+	form := 0
+	if w >= 32 {
+		form = vstub.Choose(0, int(w/32))
+	}
+	h, v := hexDigits(1)
+	var lit []byte
+	switch form {
+	case 0:
+		lit = app(nil, "0x", h)
+	case 1:
+		lit, v = app(nil, "0x1", h), 0x10+v
+	default:
+		lit, v = app(nil, "0x3", h), 0x30+v
+	}
+	vstub.Assume(v < uint64(w))
+	return lit, v
+}
+
+// C15Flags: [flags] members are the value of their expression, computed in
+// the enum's base type. Expressions are fully parenthesised (the property
+// does not fix a precedence), operands are literals with a symbolic digit
+// and earlier members, shift counts are below the width of the base type.
+// Intermediate results may leave the base type: the reference then keeps the
+// low bits, as arithmetic in that type does (see DESIGN, C15).
 func C15Flags(bi, shape int) {
 	b := bases[bi]
 	if b.name == "byte" {
@@ -167,57 +224,49 @@ func C15Flags(bi, shape int) {
 	}
 	op1 := vstub.Choose(0, 3)
 	op2 := vstub.Choose(0, 3)
-	x, xv := flagOperand(true)
-	y, yv := flagOperand(op1 < 2)
-	if op1 >= 2 {
-		vstub.Assume(yv < 8)
+	operand := func(count bool) ([]byte, uint64) {
+		if count {
+			return flagCount(b)
+		}
+		return flagOperand()
 	}
-	z, zv := flagOperand(op2 < 2 && shape != 3)
-	if op2 >= 2 {
-		vstub.Assume(zv < 8)
-	}
-	fits := func(v uint64) { vstub.Assume(v <= b.max) }
+	x, xv := flagOperand()
+	y, yv := operand(op1 >= 2)
+	z, zv := operand(op2 >= 2 && shape != 3)
+	w := uint64(baseWidth(b))
 	var body []byte
 	var want []uint64
 	a := xv
-	fits(a)
 	body = app(body, " A = ", x, ";\n")
 	want = append(want, a)
 	switch shape {
 	case 0: // B = A op y
-		r := opApply(op1, a, yv)
-		fits(r)
+		r := opApply(b, op1, a, yv)
 		body = app(body, " B = A", opText[op1], y, ";\n")
 		want = append(want, r)
 	case 1: // B = (A op1 y) op2 z
-		r1 := opApply(op1, a, yv)
-		fits(r1)
-		r := opApply(op2, r1, zv)
-		fits(r)
+		r1 := opApply(b, op1, a, yv)
+		r := opApply(b, op2, r1, zv)
 		body = app(body, " B = (A", opText[op1], y, ")", opText[op2], z, ";\n")
 		want = append(want, r)
-	case 2: // B = y op1 (A op2 z)   (with A, z < 8 when used as a count)
-		r1 := opApply(op2, a, zv)
-		fits(r1)
+	case 2: // B = y op1 (A op2 z)   (a count is below the width and not negative)
+		r1 := opApply(b, op2, a, zv)
 		if op1 >= 2 {
-			vstub.Assume(r1 < 8)
+			vstub.Assume(r1 < w)
 		}
-		r := opApply(op1, yv, r1)
-		fits(r)
+		r := opApply(b, op1, yv, r1)
 		body = app(body, " B = ", y, opText[op1], "(A", opText[op2], z, ");\n")
 		want = append(want, r)
 	case 3: // B = y; C = A op1 B; D = (C) op2 A
 		body = app(body, " B = ", y, ";\n")
 		want = append(want, yv)
-		c := opApply(op1, a, yv)
-		fits(c)
+		c := opApply(b, op1, a, yv)
 		body = app(body, " C = A", opText[op1], "B;\n")
 		want = append(want, c)
 		if op2 >= 2 {
-			vstub.Assume(a < 8)
+			vstub.Assume(a < w)
 		}
-		d := opApply(op2, c, a)
-		fits(d)
+		d := opApply(b, op2, c, a)
 		body = app(body, " D = (C)", opText[op2], "A;\n")
 		want = append(want, d)
 	}
